@@ -1804,18 +1804,53 @@ fn c10_paths(q: &Queried, is_match: &dyn Fn(&str) -> Option<bool>, paths: &[Stri
         rpt.evaluations += 1;
         if n < lo || hi.map_or(false, |h| n > h) {
             // (After a trailing separator the empty remainder is such an empty "component".)
+            // The two listed findings about tree wildcards are told apart from anything else by
+            // the reference model, not by the shape of the expression alone (round 7: the shape
+            // alone hid C10-H, an encoder change that glues `a/**/` to `b`): the repetition-edge
+            // finding is a *matching* deviation, so the path must be outside the documented
+            // language and inside it under that named quirk; the miscount is a defect of the
+            // depth analysis, so the path must be inside the documented language. Where the
+            // model has no answer the cause is undecided (inconclusive).
+            let pc = crate::refmodel::matcher::chars(p);
+            let rep_edge_shape = q.class_asts.iter().any(|(_, i)| !i.rep_edge.is_empty());
+            let branch_tree_shape = q.class_asts.iter().any(|(a, i)| {
+                has_open_sided_tree(a, i) || a.has_feature(&|t, d| d >= 1 && matches!(t.node, Node::Tree { .. }))
+            });
+            let may = |quirks: Quirks| q.model.as_ref().map_or(Tri::Unknown, |m| m.matches(&pc, Mode::May, quirks));
+            let mut undecided = false;
             let key = if n == 0 || (p.ends_with('/') && p.len() > 1 && n + 1 == lo) {
                 Some("empty-component-counted-as-a-component")
             }
-            else if q.class_asts.iter().any(|(_, i)| !i.rep_edge.is_empty()) {
-                Some("tree-wildcard-at-edge-of-repetition-body-encoded-as-expression-edge")
-            }
-            else if q.class_asts.iter().any(|(a, i)| has_open_sided_tree(a, i) || a.has_feature(&|t, d| d >= 1 && matches!(t.node, Node::Tree { .. }))) {
-                Some("tree-wildcard-inside-branch-miscounted")
+            else if rep_edge_shape || branch_tree_shape {
+                match may(Quirks::default()) {
+                    Tri::Yes if branch_tree_shape => Some("tree-wildcard-inside-branch-miscounted"),
+                    Tri::Yes => None,
+                    Tri::No => {
+                        match may(Quirks { rooted_leading_tree_is_dotstar: false, rep_edge_tree_any_form: true }) {
+                            Tri::Yes if rep_edge_shape => Some("tree-wildcard-at-edge-of-repetition-body-encoded-as-expression-edge"),
+                            Tri::Unknown if rep_edge_shape => {
+                                undecided = true;
+                                None
+                            },
+                            _ => None,
+                        }
+                    },
+                    Tri::Unknown => {
+                        undecided = true;
+                        None
+                    },
+                }
             }
             else {
                 None
             };
+            if undecided {
+                rpt.inconclusive(
+                    "attribution-to-listed-deviation-undecided-by-the-model",
+                    json!({"pattern": q.label, "path": clip(p)}),
+                );
+                continue;
+            }
             rpt.disagreement(
                 &ctx.known,
                 "matched-path-depth-outside-reported-bounds",
